@@ -63,6 +63,12 @@ def hammingDistanceIdx (a b : List Bool) : List Nat := onesIdx (diffBits a b)
 def hammingDistanceNat (a b : Nat) : Nat :=
   hammingDistanceBits (bitsOfNat a) (bitsOfNat b)
 
+/-- `hamming_distance(a, b, return_indexes=True)` of two integers: positions in the common-length
+(left-padded) binary strings, NOT in the binary string of `a xor b` (which drops the leading
+zeros where the top bits agree). -/
+def hammingDistanceNatIdx (a b : Nat) : List Nat :=
+  hammingDistanceIdx (bitsOfNat a) (bitsOfNat b)
+
 /-! ### distributions -/
 
 section
